@@ -3060,8 +3060,12 @@ evhttp_make_request(struct evhttp_connection *evcon,
 
 	TAILQ_INSERT_TAIL(&evcon->requests, req, next);
 
-	/* We do not want to conflict with retry_ev */
-	if (evcon->retry_cnt)
+	/* We do not want to conflict with retry_ev: a scheduled retry is going
+	 * to connect for us.  (retry_cnt alone does not tell: it stays
+	 * non-zero while the retried connect is in flight and after it
+	 * failed for another reason.) */
+	if (event_initialized(&evcon->retry_ev) &&
+	    evtimer_pending(&evcon->retry_ev, NULL))
 		return (0);
 
 	/* If the connection object is not connected; make it so */
